@@ -18,6 +18,9 @@ func genCase(r *kit.Rand, i int, tier string) (chain, stop, class string, n int)
 	if r.Chance(1, 10) {
 		return genBarrierAboveFailing(r)
 	}
+	if r.Chance(1, 8) {
+		return genStopHookMid(r)
+	}
 	if r.Chance(1, 7) {
 		return genMultiKey(r)
 	}
@@ -25,7 +28,7 @@ func genCase(r *kit.Rand, i int, tier string) (chain, stop, class string, n int)
 	stop = []string{"task", "close", "delete", "task"}[r.Intn(4)]
 	// ---- chain
 	bms := kit.Pick(r, []int{20, 40})
-	mids := []string{"where", "post", "udf", "where", "post", fmt.Sprintf("barrier:%d", bms), fmt.Sprintf("pbarrier:%d", bms), fmt.Sprintf("barriernd:%d", bms)}
+	mids := []string{"where", "post", "udf", "where", "post", "hout", fmt.Sprintf("barrier:%d", bms), fmt.Sprintf("pbarrier:%d", bms), fmt.Sprintf("barriernd:%d", bms)}
 	var nodes []string
 	nodes = append(nodes, "from")
 	nmid := r.Intn(3)
@@ -336,6 +339,55 @@ func genMultiKey(r *kit.Rand) (chain, stop, class string, n int) {
 	chain = fmt.Sprintf("from,%sminflux:%d.%d.%d", mid, b, k, mask) // (influxDBOut has no chaining methods: always a leaf)
 	if mid == "post," && n > 2000 {
 		n = 2000 - r.Intn(500)
+	}
+	return
+}
+
+// genStopHookMid: a pass-through node WITH a stop hook (httpOut: stopOut unregisters its HTTP routes) in the MIDDLE of a
+// pipeline, in front of a held-back output, stopped while MORE than one edge buffer of accepted points is still upstream
+// of it. ExecutingTask.stop calls every node's stop() before the node has drained its (closed) input edge: whatever the
+// hook does must not keep the node from passing the backlog on to the outputs below it.
+func genStopHookMid(r *kit.Rand) (chain, stop, class string, n int) {
+	pre := kit.Pick(r, []string{"", "", "where,", "hout,"})
+	post := kit.Pick(r, []string{"", "", "where,", "hout,"})
+	b := kit.Pick(r, []int{1, 7, 50, 1000})
+	out := kit.Pick(r, []string{"post", "post", fmt.Sprintf("influx:%d", b), "post,hout", "post,hout,post"})
+	chain = "from," + pre + "hout," + post + out
+	nodes := strings.Split(chain, ",")
+	stop = kit.Pick(r, []string{"task", "close", "delete", "close"})
+	switch r.Intn(6) {
+	case 0:
+		class, n = "drained", kit.Pick(r, []int{1, 40, 333})
+		return
+	case 1:
+		class, n = "immediate", kit.Pick(r, []int{1500, 3000})
+		return
+	}
+	class = "gated"
+	// what the chain holds down to the first blocking output while the gate is closed (as in genCase)
+	block := 0
+	for j, k := range nodes {
+		if k == "post" || strings.HasPrefix(k, "influx") {
+			block = j + 1
+			break
+		}
+	}
+	downstream := (block+1)*(edgeCap+1) + 1
+	if strings.HasPrefix(nodes[block-1], "influx") {
+		downstream = (block+1)*(edgeCap+1) + b
+	}
+	switch r.Intn(4) {
+	case 0:
+		n = edgeCap + 2 + r.Range(1, 600) // backlog in the edge in front of the hooked node
+	case 1:
+		n = downstream + r.Range(-2, 2)
+	case 2:
+		n = downstream + r.Range(100, edgeCap-100)
+	default:
+		n = r.Range(edgeCap+3, downstream)
+	}
+	if n > downstream+edgeCap-100 {
+		n = downstream + edgeCap - 100
 	}
 	return
 }
